@@ -15,10 +15,15 @@ functions of `Spec/C05.lean` that the driver evaluates on the real tracker's obs
 * `recover_heals`              second sentence: a recover round with IPFS healthy, from a quiescent state
 * `recover_uses_recorded`      ... re-issuing the pin recorded in the shared pinset
 * `full_queue_reported_*`      last sentence, per instruction
+* `cancel_aborts_inflight`, `move_aborts_inflight`, `late_effect_would_break`  the cancellation edge
 * `late_retrack_*`             the deduplicated re-track with another mode (suspected defect K06):
                                it ends in an error status and a recover round repairs it
 -/
 namespace CV.C05
+
+/-- the small configuration of the concrete witnesses below -/
+def k06Cfg : Cfg := { cap := 1, workers := 1, ncids := 1 }
+def k06Pin (m : Mode) : PinSpec := { cid := 0, kind := .here, mode := m, tag := 1 }
 
 /-- The tracker invariant is inductive: it holds initially and every step of the LTS preserves it. -/
 theorem invariant_holds {cfg : Cfg} {s : State} (h : Reachable cfg s) : Inv s := inv_reachable h
@@ -105,6 +110,60 @@ theorem recover_uses_recorded (cfg : Cfg) (s : State) (c i : Nat) (hr : Reachabl
   case unpinError => exact key .unpin (by intro e; cases e) _ rfl (fun e => by cases e) hnew hpin
   all_goals exact absurd hnew hold
 
+/-! ### the cancellation edge
+
+What the unchanged code guarantees: an instruction of another kind for a cid whose Pin request is in flight cancels
+that operation's context — the very context `Tracker.pin` hands to the IPFSConnector call — before the opposite
+request can be issued, and nothing ever un-cancels it. From then on the daemon-side effect and a successful (or
+failing) completion of that request are disabled for ever: the request can only leave with its context error (`reap`).
+Whether the daemon had applied it BEFORE the abort is a schedule choice (`effect i` before the instruction or not);
+both are covered by `quiescent_match_or_error`. That an aborted request is not applied by the daemon AFTER the abort is
+the assumption the guarantee rests on, and it is necessary (`late_effect_would_break`). -/
+
+/-- `Untrack(c)` while a pin operation `i` is the table entry of `c` (queued or its request in flight): in every later
+    state `i` is cancelled and its request can neither take effect at the daemon nor complete (nil or daemon error). -/
+theorem cancel_aborts_inflight (cfg : Cfg) (s : State) (c i : Nat) (hr : Reachable cfg s) (hcur : s.cur c = some i)
+    (hpin : (s.ops i).typ = .pin) (es : List Ev) :
+    let s' := run cfg (untrack cfg s c).1 es
+    (s'.ops i).cancelled = true ∧ effect s' i = s' ∧ retOk s' i = s' ∧ retErr s' i = s' := by
+  have hlt := (inv_reachable hr).curLt c i hcur
+  have h1 := enqueue_cancels_other cfg { s with shared := upd s.shared c none, failed := upd s.failed c false }
+    (pinCid c) .unpin (by intro e; cases e) i hcur hlt (by rw [hpin]; intro e; cases e)
+  have h2 := cancelled_stays_run cfg es _ i h1.2 h1.1
+  exact ⟨h2, dead_call_inert _ i h2⟩
+
+/-- the same when the pin moves to other peers (`Track` of a remote pin) -/
+theorem move_aborts_inflight (cfg : Cfg) (s : State) (p : PinSpec) (i : Nat) (hr : Reachable cfg s)
+    (hk : p.kind = .remote) (hcur : s.cur p.cid = some i) (hpin : (s.ops i).typ = .pin) (es : List Ev) :
+    let s' := run cfg (track cfg s p).1 es
+    (s'.ops i).cancelled = true ∧ effect s' i = s' ∧ retOk s' i = s' ∧ retErr s' i = s' := by
+  have hlt := (inv_reachable hr).curLt p.cid i hcur
+  have h1 := trackRemote_cancels_other { s with shared := upd s.shared p.cid (some p), failed := s.failed } p i hcur hlt
+    (by rw [hpin]; intro e; cases e)
+  have h1' : (((track cfg s p).1).ops i).cancelled = true ∧ i < ((track cfg s p).1).nextId := by
+    unfold track
+    simp only [hk, reduceCtorEq, ↓reduceIte]
+    cases hn : trackNew { s with shared := upd s.shared p.cid (some p), failed := s.failed } p .remote .inProgress with
+    | mk s1 r =>
+      rw [hn] at h1
+      cases r <;> exact h1
+  have h2 := cancelled_stays_run cfg es _ i h1'.2 h1'.1
+  exact ⟨h2, dead_call_inert _ i h2⟩
+
+/-- NOT a step of the model: a daemon that applies a Pin request although its context was cancelled -/
+def lateEffect (s : State) (i : Nat) : State :=
+  { s with daemon := upd s.daemon (s.ops i).cid (some ((s.ops i).pin.mode, (s.ops i).pin.tag)) }
+
+/-- ... with such a daemon (or with a tracker that does not pass the operation's context to the Pin call, which is
+    the same thing seen from the daemon) the property fails: track, Pin request in flight, untrack, the Unpin completes,
+    then the stale Pin request is applied: quiescent, the pinset has no entry, Status = unpinned, the daemon pins c. -/
+theorem late_effect_would_break :
+    let s := reap (lateEffect (run k06Cfg init
+      [.track (k06Pin .recursive), .deqPin, .untrack 0, .deqUnpin, .effect 1, .retOk 1]) 0) 0
+    quiescent 1 (observe s) = true ∧ (observe s).shared 0 = none ∧ (observe s).status 0 = .unpinned ∧
+    (observe s).daemon 0 = some (.recursive, 1) ∧ matchOrError (observe s) 0 = false := by
+  decide
+
 def toRetCode : Ret → RetCode
   | .nil => .nil
   | .full => .full
@@ -167,8 +226,6 @@ theorem full_queue_reported_recover (cfg : Cfg) (n : Nat) (s : State) (c : Nat) 
 records direct: the state is quiescent and the status is pin_error (Status asks the daemon for the recorded mode),
 so the first sentence of the property holds; `recover 0` re-issues the recorded (direct) pin and repairs it. -/
 
-def k06Cfg : Cfg := { cap := 1, workers := 1, ncids := 1 }
-def k06Pin (m : Mode) : PinSpec := { cid := 0, kind := .here, mode := m, tag := 1 }
 def k06Run : State :=
   run k06Cfg init [.track (k06Pin .recursive), .deqPin, .track (k06Pin .direct), .effect 0, .retOk 0]
 
